@@ -602,11 +602,17 @@ func (e *Engine) phaseVerdict(prop string, record bool) (fail string) {
 	}
 	if len(stuck) > 0 {
 		if allTopDone {
-			if fail == "" {
-				fail = "leak"
-			}
-			if record {
-				e.viol(prop, "goroutine-leak", "every caller returned but goroutines started by the library are blocked forever: %s", strings.Join(stuck, ", "))
+			// every caller returned; goroutines the library started are blocked for ever. Only C20 states
+			// "neither a deadlock ... occurs" about the library's own goroutines; elsewhere it is a diagnostic.
+			if prop != "C20" {
+				e.res.Probes["goroutine-left-blocked-not-judged"]++
+			} else {
+				if fail == "" {
+					fail = "leak"
+				}
+				if record {
+					e.viol(prop, "goroutine-leak", "every caller returned but goroutines started by the library are blocked forever: %s", strings.Join(stuck, ", "))
+				}
 			}
 		} else {
 			if fail == "" {
